@@ -36,6 +36,15 @@ def scenario(sim):
         cipher, mac = SUITES[si]
         ks = pkt.KeySet(sim, cipher, mac, comp, ("sha1", "sha256", "sha512")[sim.choose(3)], bool(sim.choose(2)))
         bs = pkt.Transport._cipher_info[cipher]["block-size"]
+        if sim.choose(2):
+            # a different suite first: the target suite is then reached through a RE-key, as after
+            # an algorithm change between exchanges (state left over from the previous epoch matters)
+            c0, m0 = SUITES[sim.choose(len(SUITES))]
+            prev = pkt.KeySet(sim, c0, m0, comp, "sha256", ks.strict)
+            script.append(("keys", prev))
+            for n in (1, 5, 16, 33):
+                script.append(("msg", bytes([94]) + sim.payload.randbytes(n - 1)))
+            sim.probe("suite_reached_by_rekey")
         script.append(("keys", ks))
         name = ks.describe()
     else:
@@ -58,7 +67,7 @@ def scenario(sim):
             raise Violation(("C03", "framing", bad[0].split(" ")[0], p.framing),
                             "packet seq %d (%s, payload %d bytes): %s"
                             % (p.seqno, p.framing, len(p.raw_payload), "; ".join(bad)), desc)
-        if ks is not None and p.epoch == 1:
+        if ks is not None and p.epoch == (2 if len(st["keysets"]) == 2 else 1):
             exp_mac = 16 if p.framing == "gcm" else wiretap.MACS[ks.mac][2]
             if p.mac_len != exp_mac:
                 raise Violation(("C03", "mac-length"), "MAC length %d, expected %d" % (p.mac_len, exp_mac), desc)
